@@ -122,15 +122,16 @@ struct ReplyWorld : World {
 			Op op; unsigned k = (unsigned) r.below(12);
 			op.kind = k < 4 ? OP_REQ : k < 7 ? OP_DELIVER : k < 10 ? OP_SERVE : OP_FLUSH;
 			if (pressure && op.kind == OP_FLUSH && r.chance(2, 3)) op.kind = OP_REQ;
-			op.a = (int64_t) r.next(); op.b = r.below(6) | (r.below(5) << 8); op.c = r.chance(1, 3) ? 1 : r.chance(1, 2) ? 1000000 : r.range(1, 40);
+			op.a = (int64_t) r.next(); op.b = r.below(6) | (r.below(6) << 8); op.c = r.chance(1, 3) ? 1 : r.chance(1, 2) ? 1000000 : r.range(1, 40);
 			if (pressure && op.kind == OP_REQ) { op.b = 3 | (r.below(r.chance(1, 8) ? 5 : 4) << 8); if (r.chance(1, 2)) op.c = 0; }
 			if (iof && op.kind == OP_FLUSH && r.chance(1, 2)) { op.fault = r.chance(1, 2) ? FL_SHORT : FL_EAGAIN; op.fa = r.range(1, 5); }
 			if (iof && op.kind == OP_SERVE && r.chance(1, pressure ? 2 : 4)) { op.fault = FL_ALLOC; op.fa = (pressure ? r.range(1, 2) : r.range(1, 4)) + (r.chance(1, 3) ? 16 : 0); }
 			p.ops.push_back(op);
 		}
+		p.set("discards", r.chance(1, 6));     // some serve ops dispatch without handler (op.a bits 8..11 == 3)
 		p.set("varlong", r.chance(1, 2));     // long replies of 150..749 bytes: the point where the write queue has to grow falls anywhere in a later reply
 	}
-	struct SReq { uint64_t id; int behaviour; int replies = 0; int handled = 0; bool faulted = false; Bytes payload; size_t longlen = 700; };
+	struct SReq { uint64_t id; int behaviour; int replies = 0; int handled = 0; bool faulted = false; Bytes payload; size_t longlen = 700; bool is_reply = false; };
 	struct Responder { std::vector<SReq> *reqs; unsigned idlen; Log *log; uint64_t calls = 0; };
 	static int responder_handler(void *arg, event *ev) {
 		Harness h;
@@ -145,6 +146,12 @@ struct ReplyWorld : World {
 		if (q->handled) { pend("duplicate-request", "request %llx dispatched twice", (unsigned long long) q->id); return 0; }
 		q->handled = 1;
 		R.log->ev("    handle request id=%llx behaviour=%d reply-context=%s", (unsigned long long) q->id, q->behaviour, ev->reply ? "yes" : "no");
+		if (q->is_reply) {
+			// a frame marked as reply: handed over with the id it answers, never with a reply context (a reply is not answered)
+			if (ev->reply) pend("reply-context", "a frame marked as reply (id %llx) was dispatched with a reply context", (unsigned long long) q->id);
+			else if (ev->id != q->id) pend("wrong-id", "reply frame for id %llx was dispatched as event id %llx", (unsigned long long) q->id, (unsigned long long) ev->id);
+			return 0;
+		}
 		if ((q->id != 0) != (ev->reply != 0)) { pend("reply-context", "request with id %llx %s a reply context", (unsigned long long) q->id, ev->reply ? "got" : "did not get"); return 0; }
 		if (!ev->reply) return 0;
 		switch (q->behaviour) {
@@ -182,6 +189,7 @@ struct ReplyWorld : World {
 				uint64_t id = msg[0] & 0x7f; for (unsigned k = 1; k < idlen; ++k) id = (id << 8) | msg[k];
 				SReq *q = 0; for (auto &r : reqs) if (r.id == id && r.id) { q = &r; break; }
 				if (!q) fail("foreign-id", "reply carries id %llx which no request used", (unsigned long long) id);
+				if (q->is_reply) fail("answered-a-reply", "the responder answered a frame that was itself marked as reply (id %llx)", (unsigned long long) id);
 				if (++seen[id] > 1) fail("second-reply", "request %llx was answered %d times", (unsigned long long) id, seen[id]);
 				if (!q->handled) fail("foreign-id", "reply for request %llx before it was dispatched", (unsigned long long) id);
 				// what the answer says: an explicit reply carries the handler's text, a default reply the answer header with the handler's result
@@ -196,11 +204,21 @@ struct ReplyWorld : World {
 					if (body != want) fail("wrong-answer", "default reply to %llx is %zu bytes [%s], expected the answer header {%d,%d}", (unsigned long long) id, body.size(), hex(body, 12).c_str(), want[0], (int8_t) want[1]);
 				}
 			}
-			if (final) for (auto &r : reqs) if (r.id && r.handled && !r.faulted && !seen.count(r.id)) fail("no-reply", "request %llx was dispatched (behaviour %d) but never answered", (unsigned long long) r.id, r.behaviour);
+			if (final) for (auto &r : reqs) if (r.id && r.handled && !r.faulted && !r.is_reply && !seen.count(r.id)) fail("no-reply", "request %llx was dispatched (behaviour %d) but never answered", (unsigned long long) r.id, r.behaviour);
 			if (final && b != reply_stream.size()) fail("bad-frame", "responder left an unterminated frame of %zu bytes on the wire", reply_stream.size() - b);
 		};
-		auto serve = [&](AllocFault af = AllocFault{0, false}) -> int {
+		size_t discards = 0;      // dispatch calls without handler that returned normally: each may have skipped one message
+		auto serve = [&](AllocFault af = AllocFault{0, false}, bool discard = false) -> int {
 			uint64_t failn = af.n; bool from = af.from;
+			if (discard) {
+				// dispatch without handler: the pending message is skipped, nothing is answered
+				int n; { Sut s; n = in->next(POLLIN); }
+				int d, guard = 0;
+				do { { Sut s; SUT_GUARD_ABORT(d = in->dispatch(0, 0)); } check_pending(); if (d >= 0) ++discards; } while (d >= 0 && (d & 0x10000) && ++guard < 64);
+				st.hit("probe:dispatch_without_handler");
+				log.ev("SERVE (no handler: discard) next=%d dispatch=%d", n, d);
+				return d;
+			}
 			int n; { Sut s(failn, from); n = in->next(POLLIN); if (g.fired) { st.hit("fault:allocfail_in_poll"); if (!from) failn = 0; } }
 			int d, guard = 0;
 			do {
@@ -232,11 +250,13 @@ struct ReplyWorld : World {
 				uint64_t id = sel == 0 ? 0 : sel == 1 ? 1 : sel == 2 ? lim : 1 + ((uint64_t) op.a % lim);
 				bool dup = false; for (auto &r : reqs) if (r.id == id && id) dup = true;
 				if (dup) break;
-				SReq q; q.id = id; q.behaviour = (int) ((op.b >> 8) & 0xff) % 5;
+				SReq q; q.id = id; q.behaviour = (int) ((op.b >> 8) & 0xff) % 6;
+				if (q.behaviour == 5) { if (!id) q.behaviour = 0; else { q.is_reply = true; st.hit("probe:reply_frame_received"); } }
 				q.payload = {0x04, 0x00}; for (int k = 0; k < 4; ++k) q.payload.push_back((uint8_t) (serial >> (8 * k))); ++serial;
 				if (p.get("varlong")) q.longlen = 150 + (size_t) (((uint64_t) op.a >> 16) % 600);
 				size_t extra = (size_t) op.c % 30; for (size_t k = 0; k < extra; ++k) q.payload.push_back((uint8_t) (op.a >> (k % 8)));
 				Bytes msg(idlen); for (unsigned k = 0; k < idlen; ++k) msg[idlen - 1 - k] = (uint8_t) (id >> (8 * k));
+				if (q.is_reply) msg[0] |= 0x80;
 				msg.insert(msg.end(), q.payload.begin(), q.payload.end());
 				Bytes frame = ref::encode(framing, msg);
 				simio::Chan *c = simio::chan(up); for (uint8_t b : frame) c->wire.push_back(b);
@@ -246,7 +266,7 @@ struct ReplyWorld : World {
 				break;
 			}
 			case OP_DELIVER: { size_t n = simio::deliver(up, (size_t) std::max<int64_t>(op.c, 1)); log.ev("DELIVER %zu", n); if (n == 1) st.hit("fault:single_byte_delivery"); else if (n) st.hit("fault:segment_cut"); outcome = n > 0; break; }
-			case OP_SERVE: outcome = serve(alloc_fault(op, FL_ALLOC)) >= 0; judge_replies(false); break;
+			case OP_SERVE: outcome = serve(alloc_fault(op, FL_ALLOC), p.get("discards") && ((op.a & 0xf00) == 0x300)) >= 0; judge_replies(false); break;
 			case OP_FLUSH: if (op.fault) st.hit(std::string("fault:writev_") + FAULTS[op.fault]); flush(op.fault, op.fa); judge_replies(false); outcome = 1; break;
 			}
 			st.state(760 + op.kind, (int) std::min<size_t>(reqs.size(), 3) * 4 + (op.fault ? 2 : 0) + (idlen > 2), outcome);
@@ -261,7 +281,8 @@ struct ReplyWorld : World {
 			size_t handled2 = 0; for (auto &r : reqs) handled2 += r.handled;
 			idle = (handled == handled2 && written == simio::chan(down)->written) ? idle + 1 : 0;
 		}
-		for (auto &r : reqs) if (!r.handled) fail("request-lost", "request %llx was delivered completely but never dispatched", (unsigned long long) r.id);
+		{ size_t unhandled = 0; for (auto &r : reqs) if (!r.handled) ++unhandled;
+		  if (unhandled > discards) for (auto &r : reqs) if (!r.handled) fail("request-lost", "request %llx was delivered completely but never dispatched (%zu such, %zu dispatch calls without handler could have skipped one each)", (unsigned long long) r.id, unhandled, discards); }
 		collect();
 		judge_replies(true);
 		{ Sut s; in->unref(); }
